@@ -228,7 +228,7 @@ def type_edit(text, rng):
             return None
         d = rng.choice(decls)
         ts = text.rfind(d["type"], 0, d["start"])
-        return text[:ts] + rng.choice(TYPES) + text[ts + len(d["type"]):], kind
+        return text[:ts] + rng.choice(TYPES + ["money", "acount"]) + text[ts + len(d["type"]):], kind
     if kind == "arity":
         m = re.search(r'set_tx_meta\("[a-z0-9]*", ', text)
         if m:
@@ -259,10 +259,17 @@ def type_edit(text, rng):
                                                 "@a allowing unbounded overdraft\n  destination = @c\n)\nsend [USD *] (\n  source = "]) + text[m.end():], kind
         return text + "send [USD *] (\n  source = { 50% from @a 50% from @b }\n  destination = @c\n)\n", kind
     if kind == "unknown-type":
+        # a declaration whose type name does not exist: plain, or initialised by a function call (the store
+        # holds the key, see check_c17); unused, or used where any type is accepted
+        decl = rng.choice(["money $weird", "money $weird", 'acount $weird = meta(@a, "k")', 'money $weird = balance(@a, USD)',
+                           'strin $weird = meta(@a, "k")'])
+        use = 'set_tx_meta("w", $weird)\n' if rng.random() < 0.5 else ""
+        if "=" in decl:
+            kind = "unknown-type-origin"
         m = re.match(r"\s*vars\s*\{\n?", text)
         if m:
-            return text[:m.end()] + "  money $weird\n" + text[m.end():], kind
-        return "vars {\n  money $weird\n}\n" + text, kind
+            return text[:m.end()] + "  " + decl + "\n" + text[m.end():] + use, kind
+        return "vars {\n  " + decl + "\n}\n" + text + use, kind
     return None
 
 
